@@ -161,7 +161,7 @@ Theorem start_time_rule s :
   match (match payload_of (so_xml s) with Some pl => find t_StoryStarted (kids_of pl) | None => None end) with
   | Some e => time_of o e
   | None => match so_start s, so_offset s with
-            | Some p, Some off => AVal (p + ticks_us off)
+            | Some p, Some off => AVal (p + off)
             | _, _ => ANone
             end
   end.
@@ -172,7 +172,7 @@ Theorem end_time_rule s :
   match (match payload_of (so_xml s) with Some pl => find t_StoryEnded (kids_of pl) | None => None end) with
   | Some e => time_of o e
   | None => match so_start_time o s, story_duration o (so_xml s) with
-            | AVal st, AVal d => AVal (st + ticks_us d)
+            | AVal st, AVal d => AVal (st + d)
             | AErr e, _ => AErr e
             | AVal _, AErr e => AErr e
             | _, _ => ANone
